@@ -105,12 +105,12 @@ type Cluster struct {
 	FaultOps map[string]bool
 	Monitor  func(c *Cluster, call *CCall)
 	// Armed is a one-shot fault for the next call of an operation: op -> fault kind (engine B's explicit fault events)
-	Armed    map[string]string
+	Armed map[string]string
 	// idem remembers the outcome of a Create that "timed out after it took effect": terway retries with the same
 	// ClientToken (pkg/aliyun/client token.go), for which the cloud returns the already created interface
-	idem     map[string]string
-	next     int
-	nextIP   int
+	idem   map[string]string
+	next   int
+	nextIP int
 	// LimitV4 / LimitV6: addresses one interface can hold (0 = unlimited). The cloud itself refuses an assign beyond
 	// it (InvalidOperation.Ipv4CountExceeded / Ipv6CountExceeded), whatever the caller believes the interface holds.
 	LimitV4, LimitV6 int
@@ -471,8 +471,12 @@ func (c *Cluster) del(ctx context.Context, eniID string) error {
 	c.end(call, nil)
 	return nil
 }
-func (c *Cluster) DeleteNetworkInterface(ctx context.Context, eniID string) error   { return c.del(ctx, eniID) }
-func (c *Cluster) DeleteNetworkInterfaceV2(ctx context.Context, eniID string) error { return c.del(ctx, eniID) }
+func (c *Cluster) DeleteNetworkInterface(ctx context.Context, eniID string) error {
+	return c.del(ctx, eniID)
+}
+func (c *Cluster) DeleteNetworkInterfaceV2(ctx context.Context, eniID string) error {
+	return c.del(ctx, eniID)
+}
 
 func (c *Cluster) waitFor(ctx context.Context, eniID, status string, ignoreNotExist bool) (*client.NetworkInterface, error) {
 	call := &CCall{Op: "WaitFor", ENI: eniID}
